@@ -280,10 +280,13 @@ func scenarios(tier string) []scen {
 		{name: "openrgb connected, midi input live", events: two[:1], rgb: true, midiIn: true, dBound: lower},
 		{name: "two devices on one output (one key held at disconnect each)", events: []*input.InputEvent{key("KEY_A", 1)}, two: true, dBound: -2, unbounded: tier == "thorough", noEarlyTimers: true},
 	}
+	// the panic action replaces the MIDI-input tracker: any schedule exposes a missing lock through the happens-before
+	// detector, so the non-preemptive schedules suffice in the quick tier (129 sends make higher bounds expensive)
+	s = append(s, scen{name: "no-openrgb, panic while midi input is live", events: []*input.InputEvent{key("KEY_A", 1), key("KEY_ESC", 1)}, midiIn: true, dBound: -2, noEarlyTimers: true})
 	if tier == "thorough" {
 		s = append(s,
 			scen{name: "openrgb connected, octave change + release", events: []*input.InputEvent{key("KEY_A", 1), key("KEY_F2", 1), key("KEY_A", 0)}, rgb: true},
-			scen{name: "no-openrgb, panic with a key held", events: []*input.InputEvent{key("KEY_A", 1), key("KEY_ESC", 1)}, midiIn: true},
+			scen{name: "openrgb connected, panic while midi input is live", events: []*input.InputEvent{key("KEY_A", 1), key("KEY_ESC", 1)}, rgb: true, midiIn: true, dBound: -2},
 			scen{name: "two devices, press and release", events: []*input.InputEvent{key("KEY_A", 1), key("KEY_A", 0)}, two: true, noEarlyTimers: true},
 			scen{name: "two devices, two keys held at disconnect each", events: two, two: true, noEarlyTimers: true, dBound: -2},
 		)
